@@ -1385,6 +1385,7 @@ example : reasonableRFConsX (ratArith (1/2)) ratCArith exRfText none [1, 1] = .e
 example : reasonableRFConsX (ratArith (1/2)) ratCArith exRfText (some Gen.rnaAbc) [1, 1] = .ok [0x41, 0x43, 0x47, 0x55] ∧
     reasonableRFConsX (ratArith (51/100)) ratCArith exRfText (some Gen.rnaAbc) [1, 1] = .ok [0x41, 0x43, 0x2e, 0x55] := by
   decide +kernel
+example : (exRfText.rows.all fun r => (r.take exRfText.alen).all Gen.rnaAbc.cIsValid) = true := by decide
 example : exRfText.isDigital = false ∧ RfTextOk Gen.rnaAbc exRfText := by
   refine ⟨rfl, ?_⟩
   unfold RfTextOk RfTextCell
@@ -1400,8 +1401,9 @@ example : rfColumn (ratArith (1/2)) isAlpha (fun _ => true) [(0x47, 1), (0x2d, 1
 
 /-- the table facts the transformations use hold for the three alphabets of the working tree -/
 theorem generated_abcOk : AbcOk Gen.rnaAbc ∧ AbcOk Gen.dnaAbc ∧ AbcOk Gen.aminoAbc := by
-  refine ⟨⟨by decide, by decide, ?_, by decide, by decide⟩, ⟨by decide, by decide, ?_, by decide, by decide⟩,
-    ⟨by decide, by decide, ?_, by decide, by decide⟩⟩
+  refine ⟨⟨by decide, by decide, ?_, by decide, by decide, generated_degen_ok.1⟩,
+    ⟨by decide, by decide, ?_, by decide, by decide, generated_degen_ok.2.1⟩,
+    ⟨by decide, by decide, ?_, by decide, by decide, generated_degen_ok.2.2⟩⟩
   · intro compl h; cases h; decide
   · intro compl h; cases h; decide
   · intro compl h; cases h
@@ -1409,8 +1411,8 @@ theorem generated_abcOk : AbcOk Gen.rnaAbc ∧ AbcOk Gen.dnaAbc ∧ AbcOk Gen.am
 /-- FOR EVERY HISTORY: whatever chain (any length, any order, mode switches in between) of successful
     `esl_msa_ColumnSubset` (hence MinimGaps / NoGaps / their text twins, `compaction_entry_points`),
     `esl_msa_RemoveBrokenBasepairs`, `esl_msa_Set*` / `esl_msa_Format*` (successful or refused), `esl_msa_Digitize`,
-    `esl_msa_Textize`, `esl_msa_ReverseComplement`, `esl_msa_FlushLeftInserts`, `esl_msa_MarkFragments_old` and
-    `esl_msa_SequenceSubset` calls is applied to a well-formed alignment (with distinct GS tags and distinct GR tags: what the
+    `esl_msa_Textize`, `esl_msa_ReverseComplement`, `esl_msa_FlushLeftInserts`, `esl_msa_MarkFragments_old`,
+    `esl_msa_SequenceSubset`, `esl_msa_ConvertDegen2X`, `esl_msa_SymConvert` and `esl_msa_SetDefaultWeights` calls is applied to a well-formed alignment (with distinct GS tags and distinct GR tags: what the
     keyhash of `esl_msa_AddGS` / `AppendGR` guarantees; the invariant carries it along), the alignment reached is
     well formed, a digital one carries an alphabet and only valid codes of it, a text one carries no alphabet. -/
 theorem history_wellformed (m m' : Msa) (h : Steps m m') (inv : Inv m) :
